@@ -646,9 +646,13 @@ public:
 		return std::nullopt;
 	}
 
-	[[nodiscard]] std::optional<CMsgPackReadBinaryScope<TReader>> OpenBinaryScope(size_t) const
+	[[nodiscard]] std::optional<CMsgPackReadBinaryScope<TReader>> OpenBinaryScope(size_t)
 	{
-		if (size_t sz = 0; mMsgPackReader->ReadBinarySize(sz)) {
+		CheckEnd();
+		// When the value is not a binary array, it stays unread (the caller will try to load it as a regular array)
+		if (size_t sz = 0; mMsgPackReader->ReadBinarySize(sz))
+		{
+			++mIndex;
 			return std::make_optional<CMsgPackReadBinaryScope<TReader>>(sz, mMsgPackReader, GetContext());
 		}
 		return std::nullopt;
@@ -779,7 +783,7 @@ public:
 			if (size_t sz = 0; mMsgPackReader->ReadBinarySize(sz)) {
 				return std::make_optional<CMsgPackReadBinaryScope<TReader>>(sz, mMsgPackReader, GetContext(), this);
 			}
-			OnFinishChildScope();
+			// When the value is not a binary array, it stays unread under the current key (the caller will try to load it as a regular array)
 		}
 		return std::nullopt;
 	}
